@@ -850,7 +850,8 @@ func genC25(rt *rapid.T, steer c25Steer) (c c25Case, excluded int) {
 }
 
 const c25Rule = "stack = driver -> address translator -> 0-2 TLBs (sets 1-4, ways 1-3, MSHR 1-4, latency 1-5, 1-4 req/cycle) -> optional mmuCache (1-5 levels, 1-4 blocks) -> MMU (latency 0-8, 1-8 walks) or GMMU -> MMU for remote pages; " +
-	"built with the repository's builders/port/connection idioms, all 1 GHz, port buffers 1-8; page 4K/16K/64K; 1-14 pages of 1-4 processes over a shared pool of 1-8 VPNs (low, 2^20+k, top of the address space) with distinct frames; " +
+	"built with the repository's builders/port/connection idioms, all 1 GHz, port buffers 1-8; page 4K/16K/64K; 1-18 pages of 1-4 processes over a shared pool of 1-10 VPNs (low incl. a dense 0..0x3f range, 2^20+k, top of the address space) with distinct frames; " +
+	"process IDs 1..n in half of the cases, otherwise drawn from 1-9, 10-39, 100-139, 1-999 and 2^31..2^32-1; with several processes half of the cases make one PID a decimal extension of another (p, 10p+d) and 3 in 4 of those also map 1-2 page pairs whose decimal-PID + hex-address texts concatenate to the same string ((1,0x11000)/(11,0x1000); the pages differ by a multiple of 16 pages, so they share a TLB set for 1, 2 and 4 sets) and start the script with them as the recently used pages; " +
 	"ideal memory (latency 0-5) pre-filled so each aligned 8-byte word holds a bijective mix of its own physical address; script of 3-70 ops: reads (1-64 B, any offset inside the page), writes (1-16 B inside a 16-byte chunk written at most once, optional dirty mask), " +
 	"TranslationReqs injected at any level's Top, page-table Updates to never-used frames, invalidation rounds over all caches (Drain top-down with traffic in flight, or Pause of an idle (quiesced) stack, or Pause of a busy stack; then Invalidate(all | pid | addresses incl. non-covering filters), then Enable), remap scenarios (warm, Update, requests in flight, covering round 0-8 cycles later, more requests), fences; gaps 0-25 cycles. " +
 	"Oracle per request: the observed page/physical location must be a page-table version that existed by the answer and was either still current after the request was received or (path with a TLB) not yet covered by an acknowledged invalidation round started after the update; " +
